@@ -263,6 +263,19 @@ Theorem C19_launch_process_error_recorded :
 Proof. exact process_error_recorded. Qed.
 Print Assumptions C19_launch_process_error_recorded.
 
+(* 11. one database per trie kind (core.BlockChain.TrieBackingDb): in the model the
+   database is a parameter of each sync, so a sync of kind k leaves the database of
+   every other kind untouched.  This holds by construction of the model; that the
+   implementation writes through a batch of the CURRENT sync's backing database is
+   checked by the launch campaign's oracle (several syncs of different kinds on one
+   downloader: whole trie readable from the kind's namespace, no key written
+   outside it), not proved. *)
+Theorem C19_sync_writes_only_its_own_database :
+  forall H dec blen ideal world k root cb evs k',
+  k' <> k -> sync_in_world H dec blen ideal world k root cb evs k' = world k'.
+Proof. exact sync_writes_only_its_own_database. Qed.
+Print Assumptions C19_sync_writes_only_its_own_database.
+
 (* 10c. the launch machine the harness checks observed outcomes against (astep,
    without the contents of the loop) is the projection of the full one *)
 Theorem C19_launch_refines :
